@@ -242,7 +242,9 @@ D_EXTRA = [0x85, 0xA0, 0x2003, 0x3000, 0x2028,      # whitespace
            0x17F,                                   # LONG S: lower-case, upper() is ASCII 'S', casefold() is 's'
            0x663,                                   # ARABIC-INDIC DIGIT THREE
            0x20AC,                                  # euro sign
-           0xFEFF]                                  # ZERO WIDTH NO-BREAK SPACE / byte order mark (a format character)
+           0xFEFF,                                  # ZERO WIDTH NO-BREAK SPACE / byte order mark (a format character)
+           0xB4, 0xFF08]                            # compatibility characters: NFKC of ACUTE ACCENT is blank + combining
+                                                    # acute, of FULLWIDTH LEFT PARENTHESIS an ASCII '('
 
 
 def domain_D():
